@@ -116,6 +116,23 @@ pub fn swap(
                 a_to_b,
             )?;
 
+            #[cfg(feature = "verif")]
+            crate::verif_trace::record_step(crate::verif_trace::StepTrace {
+                tick_before: curr_tick_index,
+                sqrt_price_before: curr_sqrt_price,
+                sqrt_price_target: bounded_sqrt_price_target,
+                next_init_tick_index: next_tick_index,
+                liquidity: curr_liquidity,
+                fee_rate: total_fee_rate,
+                amount_remaining_before: amount_remaining,
+                amount_in: swap_computation.amount_in,
+                amount_out: swap_computation.amount_out,
+                fee_amount: swap_computation.fee_amount,
+                sqrt_price_after: swap_computation.next_price,
+                skipped: adaptive_fee_update_skipped,
+                crossed_initialized_tick: None,
+            });
+
             if amount_specified_is_input {
                 amount_remaining = amount_remaining
                     .checked_sub(swap_computation.amount_in)
@@ -160,6 +177,9 @@ pub fn swap(
                     .map_or_else(|_| (None, false), |tick| (Some(tick), tick.initialized));
 
                 if next_tick_initialized {
+                    #[cfg(feature = "verif")]
+                    crate::verif_trace::record_cross(next_tick_index);
+
                     let (fee_growth_global_a, fee_growth_global_b) = if a_to_b {
                         (curr_fee_growth_global_input, whirlpool.fee_growth_global_b)
                     } else {
